@@ -280,7 +280,8 @@ func run(c Case) (pbt.Outcome, error) {
 		case "vhist":
 			spec := make(tally.ValueBuckets, ms.NBounds)
 			for j := range spec {
-				spec[j] = float64(j*j) * 1.5
+				// magnitudes vary so that the rendered bucket ranges ("lo-hi" tag values) differ a lot in length
+				spec[j] = float64(j+1) * 1.5 * math.Pow(1000, float64(j%4))
 			}
 			h := r.AllocateHistogram(name, tags, spec)
 			for _, p := range tally.BucketPairs(spec) {
@@ -289,7 +290,7 @@ func run(c Case) (pbt.Outcome, error) {
 		case "dhist":
 			spec := make(tally.DurationBuckets, ms.NBounds)
 			for j := range spec {
-				spec[j] = time.Duration(j*j) * 1500 * time.Microsecond
+				spec[j] = time.Duration(j+1) * 1500 * time.Microsecond * time.Duration(math.Pow(60, float64(j%4)))
 			}
 			h := r.AllocateHistogram(name, tags, spec)
 			for _, p := range tally.BucketPairs(spec) {
